@@ -143,6 +143,8 @@ def body():
         if san:
             c.violation(key + ":crash", "driver died / sanitizer report: %s" % san, {"case": case})
             continue
+        if any(e.get("unset") for e in evs) and not case.get("touched"):
+            c.violation(key + ":outlen-unset", "a decrypt_update call returned 1 without reporting how many bytes it wrote (*outlen keeps the caller's old value)", {"case": case, "events": [{kk: vv for kk, vv in e.items() if kk != "T"} for e in evs][:12]})
         execs.append((key, case, CL.annotate(evs)))
     rej, states = vlib.validate("CryptoTrace", [e[2] for e in execs], tag="c05", timeout=1500, max_reject=400)
     c.cov["traces_validated_against_impl"] = len(execs)
